@@ -274,7 +274,10 @@ def _inline_safe(prop, ctx0):
 
 
 def _score(ctx):
-    return len({v["key"] for v in ctx.viol}) + (50 if ctx.inconclusive else 0)
+    # clause instances that are not discharged: violated, or not read.  An instance that a view merely leaves unread
+    # must not count as an improvement over the same instance violated on the program as written (the violation and
+    # the 'not read' outcome of one rule may carry different clause ids, so they are counted, not matched)
+    return len({v["key"] for v in ctx.viol}) + (50 if ctx.inconclusive else 0) + len({(u["clause"], u["key"]) for u in ctx.undecided})
 
 
 def _resolve_undecided(prop, tier, fn, level, ctx0):
